@@ -10188,7 +10188,7 @@ bool SoPlexBase<R>::writeBasisFile(const char* filename, const NameSet* rowNames
             assert(row != numRows);
 
             if(_basisStatusRows[row] == SPxSolverBase<R>::ON_UPPER && (!cpxFormat
-                  || _rowTypes[row] == SoPlexBase<R>::RANGETYPE_BOXED))
+                  || _rangeTypeReal(_realLP->lhs(row), _realLP->rhs(row)) == SoPlexBase<R>::RANGETYPE_BOXED))
                file << " XU ";
             else
                file << " XL ";
